@@ -880,3 +880,48 @@ def t_class_defaults(ck, ctx, module_prefix="simple_ddl_parser.output"):
                   "a mutable default argument is one object shared by every call; here it is stored, returned, passed on or mutated" +
                   ("" if escapes is None else f" ({ast.unparse(escapes)[:70]})"), f.loc(p_))
     return n
+
+
+def _nested_mutable(v):
+    """a dict / list literal at module level whose elements include a mutable container"""
+    if isinstance(v, ast.Dict):
+        return any(isinstance(x, (ast.List, ast.Dict, ast.Set)) for x in v.values)
+    if isinstance(v, (ast.List, ast.Tuple)):
+        return any(isinstance(x, (ast.List, ast.Dict, ast.Set)) for x in v.elts)
+    return False
+
+
+def statement_scope(ctx):
+    """lexer rules, grammar actions and everything they reach (parser family and module functions)"""
+    fam = parser_family_funcs(ctx)
+    famids = {f.id for f in fam}
+    scope = ctx.callgraph.reachable(ply_entry_methods(ctx))
+    return [f for f in scope if f.id in famids or not f.cls]
+
+
+def t_alias(ck, ctx, scope=None):
+    """T-ALIAS: module-level containers holding mutable objects may be consulted (membership / get / index / iteration) but must not
+    flow into a result: the nested objects would be shared by every statement, every run and every parser object of the process"""
+    m = ctx.model
+    scope = statement_scope(ctx) if scope is None else scope
+    for f in scope:
+        mut = {n: v for n, v in f.module.assigns.items() if _nested_mutable(v)}
+        for local, imp in f.module.imports.items():
+            r = m.resolve_symbol(f.module, local)
+            if r and r[0] == "value" and _nested_mutable(r[1].assigns.get(r[2])):
+                mut[local] = r[1].assigns[r[2]]
+        if not mut:
+            continue
+        parents = {}
+        for p in ast.walk(f.node):
+            for c in ast.iter_child_nodes(p):
+                parents[id(c)] = p
+        for n in ast.walk(f.node):
+            if isinstance(n, ast.Name) and isinstance(n.ctx, ast.Load) and n.id in mut and not _is_local(f, n.id):
+                par = parents.get(id(n))
+                ok = isinstance(par, ast.Compare) or (isinstance(par, ast.Attribute) and par.attr in ("get", "keys", "items", "values")) \
+                    or (isinstance(par, ast.Subscript) and par.value is n and isinstance(par.ctx, ast.Load) and not _nested_mutable(mut[n.id])) \
+                    or isinstance(par, (ast.For, ast.comprehension))
+                ck.ob("T-ALIAS", f"{f.qual}: module-level {n.id} used by {type(par).__name__}", ok,
+                      f"{n.id} is a module-level container holding mutable objects; copying / unpacking it into a result makes every "
+                      "statement (and every parser object) share those inner objects", f.loc(n))
